@@ -1,5 +1,6 @@
 /-
 Driver commands for the blend model (C12).  Rationals travel as "n/d" (or "n").
+  blend.<fn>  <cb> <cs>  (separable)  |  <6 rationals> (non-separable, RGB)   -> ok n/d | ok r,g,b
   blend.sep   <fn> <cb> <cs> [<cb> <cs> ...]   -> ok  v;m v;m ...     (value ; discriminant margin or "-")
   blend.row   <fn> <N> <i>                     -> ok  v0 v1 ... vN     (Cb = i/N, Cs = j/N)
   blend.mrow  <fn> <N> <i>                     -> ok  m0 m1 ... mN     (margins; "-" when none)
@@ -83,7 +84,26 @@ def nsMargin (fn : String) (cb cs : RGB) (viaCmyk : Bool) : String :=
 
 def rgbStr (c : RGB) : String := ratStr c.r ++ "," ++ ratStr c.g ++ "," ++ ratStr c.b
 
-def cmds : List (String × Cmd) := [
+/-- `blend.<fn> <cb> <cs>` -> `ok n/d` for each separable function -/
+def sepAliases : List (String × Cmd) :=
+  ["normal", "dissolve", "multiply", "screen", "overlay", "darken", "lighten", "color_dodge", "color_burn",
+   "linear_dodge", "linear_burn", "hard_light", "soft_light", "vivid_light", "linear_light", "pin_light",
+   "hard_mix", "divide", "difference", "exclusion", "subtract"].map (fun fn =>
+    ("blend." ++ fn, fun args => match separable sqrtApprox fn, parseAll args with
+      | some f, some [cb, cs] =>
+        if hasZero (separableDens fn cb cs) then zeroDiv else okLine (ratStr (f cb cs))
+      | _, _ => badRequest))
+
+/-- `blend.<fn> <rb> <gb> <bb> <rs> <gs> <bs>` -> `ok r,g,b` for each non-separable function (RGB path) -/
+def nsAliases : List (String × Cmd) :=
+  ["hue", "saturation", "color", "luminosity", "darker_color", "lighter_color"].map (fun fn =>
+    ("blend." ++ fn, fun args => match nonSeparable fn, parseAll args with
+      | some f, some [a, b, c, d, e, g] =>
+        if hasZero (nonSeparableDens fn ⟨a, b, c⟩ ⟨d, e, g⟩) then zeroDiv
+        else okLine (rgbStr (f ⟨a, b, c⟩ ⟨d, e, g⟩))
+      | _, _ => badRequest))
+
+def cmds : List (String × Cmd) := sepAliases ++ nsAliases ++ [
   ("blend.sep", fun
     | fn :: args => match separable sqrtApprox fn, parseAll args with
       | some f, some xs => evalSep fn f (pairs xs)
